@@ -210,7 +210,30 @@ class C14(Check):
                             out.stats["faulted_skewed_messages"] += 1
                             if g != p:
                                 out.fail("C14." + direction, "%s truncated to %d bytes: reader %r, reference peer %r" % (where, cut, g, p), "skew-trunc")
-                out.shapes.append(digest([appended, k.split(".")[-2] if False else k.split(".")[-3 if False else -3:][0], ]))
+                # relay: ONE value object that carries only the fields common to both revisions is written by both writers, in
+                # either order (a gateway between an old and a new node does this); each writer must produce its own
+                # revision's encoding of that value - nothing a writer does may make the object unusable for the other one
+                import copy as _copy
+                common_node = old if len(fo) <= len(fn) else new
+                csec = common_node.uni.res.sec(k, 0)
+                for i in range(3):
+                    rng = random.Random(scn["value_seed"] * 7919 + i * 104729 + len(k))
+                    v = V.gen_composite(rng, csec, in_range=True, p_omit=0.4)
+                    snap = _copy.deepcopy(v)
+                    order = [new, old, new] if i % 2 == 0 else [old, new, old]
+                    for step, wn in enumerate(order):
+                        tag = "new" if wn is new else "old"
+                        try:
+                            data = pydsdl.serialize(wn.types[k], v)
+                        except Exception as ex:
+                            out.fail("C14." + ("new-to-old" if tag == "old" else "old-to-new"), "%s: value %r (fields common to both revisions), written by %s before, is rejected by the %s writer: %s: %s" % (
+                                k, snap, ["new", "old", "new"][:step] if i % 2 == 0 else ["old", "new", "old"][:step], tag, type(ex).__name__, ex), "relay-writer-raised:" + type(ex).__name__)
+                            break
+                        ref_bytes, _m = R.encode(wn.uni.res, k, 0, snap)
+                        out.stats["relayed_writes"] += 1
+                        if data != ref_bytes:
+                            out.fail("C14." + ("new-to-old" if tag == "old" else "old-to-new"), "%s: value %r written by the %s writer after other writers had been given the same object: %s, reference %s" % (k, snap, tag, data.hex(), ref_bytes.hex()), "relay-bytes")
+                            break
                 out.shapes.append(digest([appended, k.rsplit(".", 3)[-3]]))
             out.stats["containers"] += len(containers)
             out.obs.append([len(containers), out.stats["messages:old-to-new"]])
